@@ -309,6 +309,36 @@ fn run_keys(c: &KeyCase) -> CaseResult {
         v.label_if(ps > 0.0, "rate_nonzero");
         v.label_if(el >= Duration::from_secs(3600), "elapsed_hours");
     }
+    // a custom key registered under the name of a built-in one is the one that is written (the crate's own
+    // download example replaces {eta} like that); which names are shadowed is derived from the case
+    {
+        const NAMES: [&str; 14] = ["eta", "eta_precise", "elapsed", "elapsed_precise", "duration", "duration_precise", "per_sec", "bytes_per_sec", "pos", "len", "msg", "percent", "bytes", "bar"];
+        let mask = c.start ^ (c.ops.len() as u64).wrapping_mul(0x9E37_79B9) ^ c.len.unwrap_or(77);
+        let mut style = ProgressStyle::with_template(&NAMES.iter().map(|k| format!("{k}=<{{{k}}}>")).collect::<Vec<_>>().join("\n")).unwrap();
+        let shadowed: Vec<&str> = NAMES.iter().enumerate().filter(|(i, _)| mask >> i & 1 == 1).map(|(_, k)| *k).collect();
+        for k in &shadowed {
+            let k2 = k.to_string();
+            style = style.with_key(k, move |_: &ProgressState, w: &mut dyn std::fmt::Write| {
+                let _ = write!(w, "custom:{k2}");
+            });
+        }
+        {
+            pb.set_style(style);
+            catch(|| pb.force_draw()).map_err(|p| Fail::new("panic", format!("draw with shadowed keys {shadowed:?} panicked: {p}")))?;
+            let lines = vt.last_frame_lines().map_err(|e| Fail::new("harness", e))?;
+            if !lines.is_empty() {
+                for k in NAMES {
+                    let got = field(&lines, k)?;
+                    if shadowed.contains(&k) {
+                        ensure!(got == format!("custom:{k}"), "custom_key_shadowing", "custom key registered as {k:?} (shadowing the built-in key): the frame shows {got:?} instead of what the custom key writes");
+                    } else {
+                        ensure!(!got.starts_with("custom:"), "custom_key_shadowing", "key {k:?} is not shadowed but the frame shows {got:?}");
+                    }
+                }
+                v.label_if(!shadowed.is_empty(), "custom_key_shadows_a_built_in_key");
+            }
+        }
+    }
     v.nontrivial = changed;
     v.label_if(changed, "state_changed_before_draw");
     v.label_if(resets > 0, "reset");
@@ -333,7 +363,7 @@ pub fn property() -> Property {
             cases: |t| t.pick(2_500, 480_000),
             run: run_keys,
             signature: no_signature,
-            essential: &["state_changed_before_draw", "unknown_length", "len_lt_pos", "finished", "eta_nonzero", "rate_nonzero", "elapsed_hours", "reset"],
+            essential: &["state_changed_before_draw", "unknown_length", "len_lt_pos", "finished", "eta_nonzero", "rate_nonzero", "elapsed_hours", "reset", "custom_key_shadows_a_built_in_key"],
             workers: w,
             decode: None,
         })],
